@@ -4,6 +4,7 @@ import math
 from .. import sdr_common
 from ..lib import lean
 from ..translate import sdr as sdr_t
+from ..translate import sdrexpr
 
 ID = 'C17'
 TARGETS = ['PyIpmi.Props.C17', 'drv_c17']
@@ -59,6 +60,10 @@ _tab = None
 def translate(ctx):
     global _tab
     _tab = sdr_t.generate()
+    # the expressions of the two conversion functions, re-translated from the AST (Gen/SensorExpr.lean; theorems gen_*)
+    names = sdrexpr.generate('C17')
+    ctx.extra['generated_expressions'] = names
+    ctx.extra['generated_expression_count'] = sum(len(v) for v in names.values())
 
 
 # ---------------------------------------------------------------------------------------------
